@@ -652,9 +652,12 @@ def install_observers(run, patch):
                 centre_is_incumbent("acquisition", gp)
             z, mu, s = orig(xi, fc, gp, sqrt_beta)
             ref = None
-            if xi.shape[0] > 0 and (sqrt_beta is None or (np.isscalar(sqrt_beta) and not callable(sqrt_beta))):
+            if xi.shape[0] > 0 and (sqrt_beta is None or callable(sqrt_beta) or np.isscalar(sqrt_beta)):
                 t = fc + 1
-                sb = np.sqrt(0.4 * np.log(xi.shape[1] * t**2 * np.pi**2 / 0.6)) if sqrt_beta is None else float(sqrt_beta)
+                if callable(sqrt_beta):
+                    sb = float(sqrt_beta(t, xi.shape[1]))   # a user schedule is a function of (t, dimension)
+                else:
+                    sb = np.sqrt(0.4 * np.log(xi.shape[1] * t**2 * np.pi**2 / 0.6)) if sqrt_beta is None else float(sqrt_beta)
                 m2, s2 = gp.predict(xi)
                 ref = m2 - sb * np.sqrt(s2)
                 if not np.allclose(z, ref, rtol=1e-12, atol=1e-12, equal_nan=True):
@@ -791,6 +794,10 @@ def execute(job):
             opts["output_fcn"] = lambda x, state: True
         elif opts.get("output_fcn") == "NEVER_STOP":
             opts["output_fcn"] = lambda x, state: False
+        saf = opts.get("search_acq_fcn")
+        if isinstance(saf, (list, tuple)) and len(saf) == 2 and saf[1] == "SCHEDULE_D":
+            # a user-supplied LCB schedule that depends on its second argument (the dimension)
+            opts["search_acq_fcn"] = (saf[0], lambda t, d: np.sqrt(0.3 * d * np.log(1.0 + t)))
         install(run, patch)
         if job.get("target_obj"):
             f = _TargetObject(f)
@@ -798,6 +805,12 @@ def execute(job):
             b = bb.BADS(f, options=opts if job.get("opts_by_reference") else dict(opts), **kw)
             run.bads = b
             run.phase = "pre"
+            if job.get("scribble_inputs"):
+                # the caller goes on using its own arrays after construction: the run and the result must not follow them
+                for name_ in ("x0", "lower_bounds", "upper_bounds", "plausible_lower_bounds", "plausible_upper_bounds"):
+                    a_ = kw.get(name_)
+                    if isinstance(a_, np.ndarray) and a_.flags.writeable:
+                        a_[...] = 12345.0
             run.result = b.optimize()
         except BaseException as e:  # noqa
             if isinstance(e, (KeyboardInterrupt, SystemExit, HarnessError)):
